@@ -76,6 +76,11 @@ def splitWs (s : List Char) : List (List Char) := splitWsAux [] s
 identifiers (pinned on the ASCII range by `c17_pins`) -/
 def lowerId (s : Id) : Id := s.map Char.toLower
 
+/-- a caller-supplied normaliser (`normalize_identifier=str.upper`, through `MultiHierarchy` and
+through `tfs.TypeHierarchy`, which passes a given normaliser on instead of its default) on ASCII
+identifiers (pinned on the ASCII range by `c17_pins_upper`) -/
+def upperId (s : Id) : Id := s.map Char.toUpper
+
 /-! ### state -/
 
 structure H where
@@ -244,6 +249,29 @@ def items (norm : Id → Id) (h : H) : Except Err (List (Id × Option Dat)) :=
   (iter h).mapM (fun x => do pure (x, ← getItem norm h x))
 
 def len (h : H) : Nat := h.hier.length - 1
+
+/-- `==` of two Python dicts given as association lists (look-up semantics, order ignored) -/
+def dictEq {β : Type} [BEq β] (a b : AL β) : Bool :=
+  (keys a).all (fun k => decide (k ∈ keys b)) && (keys b).all (fun k => decide (k ∈ keys a))
+    && (keys a).all (fun k => get? a k == get? b k)
+
+/-- `MultiHierarchy.__eq__` (same class): `_top`, `_hier` and `_data` are equal; `_loer` is not compared -/
+def eqH (a b : H) : Bool := a.top == b.top && dictEq a.hier b.hier && dictEq a.data b.data
+
+/-- the class docstring's `Hierarchy(top, {id: h.parents(id) for id in h}) == h`, with the data:
+a hierarchy rebuilt by the constructor from the `parents`/`items` answers, then `rebuilt[top] = h[top]` -/
+def rebuild (norm : Id → Id) (h : H) (withData : Bool) : Except Err H :=
+  let ids := iter h
+  let sub : List (Id × PSpec) := ids.map (fun i => (i, PSpec.tup (parentsOf h.hier i)))
+  let dat : List (Id × Dat) := ids.filterMap (fun i => (get? h.data i).map (fun d => (i, d)))
+  if withData then
+    match construct norm h.top (some sub) (some dat) with
+    | .error e => .error e
+    | .ok r =>
+      match get? h.data h.top with
+      | none => .ok r
+      | some d => setItem norm r h.top d
+  else construct norm h.top (some sub) none
 
 /-! ### histories -/
 
